@@ -553,10 +553,23 @@ def ownership_gap(rep, split=False):
             elem = elem[0] if elem else '?'
             # an early exit between the write loop and set_len: the value written comes from a `?`
             val = w.arg(1) if len(w.t['args']) > 1 else ('unknown',)
-            fallible = any(s[0] == 'try' for s in subexprs(val))
             adopted = any(b.dominates(w.bb, s.bb) or s.bb in b.reach_from(w.bb) for s in sl)
             if not adopted:
                 continue
+            # an early exit between the write and the adopting set_len: a normal-flow path from the write to a return
+            # that passes no set_len (the `?` of the next element in a loop, or a fallible call on the element in place)
+            slb = {s.bb for s in sl}
+            succ = b.cfg[0]
+            seen, stk, fallible = set(), list(succ[w.bb]), False
+            while stk:
+                x = stk.pop()
+                if x in seen or x in slb:
+                    continue
+                seen.add(x)
+                if b.bbs[x]['t']['k'] == 'return':
+                    fallible = True
+                    break
+                stk.extend(succ[x])
             kind = 'needs_drop' if any(nd) else 'plain'
             where = 'generated' if b.crate == 'vgen' else b.key
             if fallible and kind == 'needs_drop':
@@ -567,7 +580,7 @@ def ownership_gap(rep, split=False):
     for (where, kind), lst in sorted(gaps.items()):
         key = 'R19.a|%s|list decode writes owning elements into spare capacity before set_len' % where
         elems = sorted({mirlib.short(e) for _, e in lst})
-        rep.bad('R19.a', key, '', 'sync list decoders write each decoded element with ptr.offset(i).write(read?) and only adopt them with set_len after the loop: when element k fails, elements 0..k-1 are never dropped (%d sites; element types owning memory e.g. %s)' % (len(lst), elems[:5]))
+        rep.bad('R19.a', key, '', 'a value is written through a raw pointer into a Vec\'s spare capacity and only adopted by a later set_len, but an error return lies between the two: whatever the written elements own is never dropped when a later step fails (%d sites; element types owning memory e.g. %s)' % (len(lst), elems[:5]))
     if nsites < 10:
         rep.anchor_missing('R19.a', 'spare-capacity write sites (found %d)' % nsites)
     # R19.b who may release ownership without dropping, in decoder code
